@@ -5,6 +5,7 @@ Extraction Language OCaml.
 Extraction "C18_model.ml" wire_anchor
   cast_ch cstr_compare_m strlen_m strcmp_m strncmp_m memcmp_m strchr_m strrchr_m memchr_m strspn_m strpbrk_m strstr_m
   strcpy_m strncpy_m strcat_m strncat_m memcpy_m memset_m memmove_m
+  strcpy_front_m strncpy_front_m strchr_front_m strrchr_front_m memmove2_m memmove_front_m
   isdigit_m islower_m isupper_m isalpha_m isalnum_m isblank_m iscntrl_m ispunct_m isgraph_m isprint_m isspace_m
   isxdigit_m tolower_m toupper_m
   iswdigit_m iswlower_m iswupper_m iswalpha_m iswalnum_m iswblank_m iswcntrl_m iswpunct_m iswgraph_m iswprint_m
